@@ -44,6 +44,15 @@ package main
 //     that of a synchronised set.  Methods taking another *Set are generated for two
 //     instances (fields of the other instance carry a prime).
 //
+// 10. Captured locals shared between goroutines: see shared.go.
+// 11. `if a.CompareAndSwap(v, v) { ... }` on a trusted atomic `a` is the publication test of
+//     limitExec's fast path: READS of captured cells inside the branch become
+//     `Atomic <cell>` (commented TRUSTED): they are ordered after the writes by the atomic
+//     store that made the test succeed, PROVIDED the cell is no longer written once the atomic
+//     holds v - a value-dependent fact the lockset argument cannot check.  Everything outside
+//     that branch (the whole slow path, including the read of the cached value for the return
+//     value) is checked normally.
+//
 // Anything else is `Unknown`.
 
 import (
@@ -419,6 +428,7 @@ func (t *T) enqueue(name, note string, st *State, gen func(st *State, k K) Code)
 func (t *T) escape(st *State, v Val, label string) []Instr {
 	switch x := v.(type) {
 	case VFunc:
+		t.shareCaptured(st, x)
 		fz := t.freeze(st, x)
 		name := fmt.Sprintf("%s.func@L%d", label, fset.Position(x.lit.Pos()).Line)
 		t.enqueue(name, "escaping closure "+src(x.lit.Type), st, func(s2 *State, k K) Code {
@@ -439,6 +449,7 @@ func (t *T) escape(st *State, v Val, label string) []Instr {
 		name := fmt.Sprintf("%s.WithLock(%s)", label, x.lock.name)
 		inner := x
 		if f, ok := x.inner.(VFunc); ok {
+			t.shareCaptured(st, f)
 			inner.inner = t.freeze(st, f)
 		}
 		t.enqueue(name, "escaping function wrapped by WithLock/Lock", st, func(s2 *State, k K) Code {
@@ -652,7 +663,7 @@ func (t *T) callDeclIn(st *State, pkg *Pkg, fd *ast.FuncDecl, recv Val, args []V
 		return one(Instr{Op: "Unknown", A: "call depth exceeded (recursion?) at " + fd.Name.Name}, k(st, VOpaque{}))
 	}
 	return t.joinKV(st, func(s *State, kk KV) Code {
-		fr := &Frame{id: t.newID(), name: fd.Name.Name, vars: map[string]Val{}, lex: -1, pkg: pkg}
+		fr := &Frame{id: t.newID(), name: fd.Name.Name, vars: map[string]Val{}, lex: -1, pkg: pkg, body: fd.Body}
 		if t.ctorName != "" {
 			fr.shared = assignedInClosures(fd)
 		}
@@ -679,7 +690,7 @@ func (t *T) callLit(st *State, f VFunc, args []Val, k KV) Code {
 		pre = []Instr{{Op: "RLock", A: f.once, Comment: "closure created inside the once body: runs after it completed"}}
 	}
 	return seq(pre, t.joinKV(st, func(s *State, kk KV) Code {
-		fr := &Frame{id: t.newID(), name: "func", vars: map[string]Val{}, lex: f.lexID, lexSnap: f.snap, pkg: pkg}
+		fr := &Frame{id: t.newID(), name: "func", vars: map[string]Val{}, lex: f.lexID, lexSnap: f.snap, pkg: pkg, body: f.lit.Body}
 		t.bindParams(s, fr, f.lit.Type, args, false)
 		return t.runBody(s, fr, f.lit.Body, kk)
 	}, k))
@@ -932,6 +943,14 @@ func (t *T) stmt(st *State, s ast.Stmt, k K) Code {
 			return t.expr(s2, x.Cond, func(s3 *State, c Val) Code {
 				thenArm := func(s4 *State, k2 K) Code { return t.stmts(s4, x.Body.List, k2) }
 				elseArm := func(s4 *State, k2 K) Code { return t.stmt(s4, x.Else, k2) }
+				if pub := t.publicationTest(s3, x.Cond); pub != "" && x.Else == nil {
+					// `if a.CompareAndSwap(v, v) { return cached }`: the fast path of limitExec (rule 11)
+					thenArm = func(s4 *State, k2 K) Code {
+						saved := s4.published
+						s4.published = pub
+						return t.stmts(s4, x.Body.List, func(s5 *State) Code { s5.published = saved; return k2(s5) })
+					}
+				}
 				if ei, ok := x.Else.(*ast.IfStmt); ok && ei.Init == nil && complementary(x.Cond, ei.Cond) {
 					// `if a != b {..} else if a == b {..}`: the second test is exhaustive (it is evaluated
 					// right after the first one, with no statement in between)
@@ -1032,6 +1051,29 @@ func (t *T) stmt(st *State, s ast.Stmt, k K) Code {
 		return one(unknown("labelled statement", x), k(st))
 	}
 	return one(unknown("statement", s), k(st))
+}
+
+// publicationTest: cond is `<atomic>.CompareAndSwap(v, v)` (same text twice) on a trusted atomic:
+// a pure test "the atomic holds v".  Returns the name of the atomic.
+func (t *T) publicationTest(st *State, cond ast.Expr) string {
+	c, ok := cond.(*ast.CallExpr)
+	if !ok || len(c.Args) != 2 || typeStr(c.Args[0]) != typeStr(c.Args[1]) {
+		return ""
+	}
+	sel, ok := c.Fun.(*ast.SelectorExpr)
+	if !ok || sel.Sel.Name != "CompareAndSwap" {
+		return ""
+	}
+	id, ok := sel.X.(*ast.Ident)
+	if !ok {
+		return ""
+	}
+	if v, ok := st.lookup(id.Name); ok {
+		if sf, ok := v.(VSafe); ok {
+			return sf.field
+		}
+	}
+	return ""
 }
 
 // complementary: a and b are textually the same comparison with == and != exchanged, or b is !a.
@@ -1362,6 +1404,9 @@ func (t *T) goStmt(st *State, g *ast.GoStmt, k K) Code {
 			return one(unknown("go builtin", g), k(s2))
 		}
 		// the goroutine: same lexical environment, nothing to return to, no lock held
+		if f, ok := callee.(VFunc); ok {
+			t.shareCaptured(s2, f)
+		}
 		sp := s2.copy()
 		sp.onceR = map[string]bool{}
 		sp.ctl = nil
@@ -1406,6 +1451,9 @@ func (t *T) expr(st *State, e ast.Expr, k KV) Code {
 	case *ast.Ident:
 		if v, ok := st.lookup(x.Name); ok {
 			if c, ok := v.(VCell); ok {
+				if st.published != "" {
+					return one(Instr{Op: "Atomic", A: c.name, Comment: "TRUSTED publication: read of " + c.name + " after " + st.published + ".CompareAndSwap(x, x) observed the final value of the atomic (not checked by the lockset argument)"}, k(st, VOpaque{}))
+				}
 				return one(acc(c.name, false), k(st, VOpaque{}))
 			}
 			return k(st, v)
